@@ -437,6 +437,10 @@ func genParserSpec(r *RNG, typ, class string) ParserSpec {
 		}
 	case "OSAP":
 		p.MinMatchLen = r.Pick(0, 2, 2, 3, 3, 4, 5)
+		if r.Chance(0.15) {
+			// beyond the length classes of the cost function (2..9, 10..17, 18..)
+			p.MinMatchLen = r.Pick(8, 9, 10, 11, 17, 18, 19, 30)
+		}
 		mm := p.MinMatchLen
 		if mm == 0 {
 			mm = 3
